@@ -93,7 +93,13 @@ func TestVerifC11(t *testing.T) {
 				must(err)
 				members = append(members, rawPub(md.Member()))
 				devices = append(devices, rawPub(md.Device()))
-				proof, _ := p.st.GetAccountProofPublicKey()
+				// the account proof key itself (GetAccountProofPublicKey hands out the account key in this code base, see
+				// DESIGN.md, observations): taken from the exported keys
+				_, proofBlob, err := p.st.ExportAccountKeysForBackup()
+				must(err)
+				proofSK, err := crypto.UnmarshalPrivateKey(proofBlob)
+				must(err)
+				proof := proofSK.GetPublic()
 				acctDev := rawPub(p.md(&protocoltypes.Group{PublicKey: g.PublicKey, GroupType: protocoltypes.GroupType_GroupTypeContact}).Device())
 				for _, forbidden := range []string{rawPub(p.accountPub()), rawPub(proof), acctDev} {
 					if members[len(members)-1] == forbidden || devices[len(devices)-1] == forbidden {
@@ -333,7 +339,8 @@ func TestVerifC11(t *testing.T) {
 		}},
 		imp{"store-with-proof-key-only", accB, proofB, true, func() *party {
 			q := mkFresh()
-			_, err := q.st.GetAccountProofPublicKey()
+			// deriving a member key uses (and creates) the proof key and nothing else
+			_, err := q.st.GetOwnMemberDeviceForGroup(groups[0])
 			must(err)
 			return q
 		}},
